@@ -123,6 +123,19 @@ theorem shiftUp_spec (ix cnt : Nat) (hc : 1 ≤ cnt) :
               rw [List.getElem?_set_ne (by omega)]
         · cases hs
 
+theorem splice_get (A new : List Hint) (ix : Nat) (hix : ix ≤ A.length) (k : Nat) :
+    (A.take ix ++ new ++ A.drop ix)[k]? =
+      if k < ix then A[k]? else if k < ix + new.length then new[k - ix]? else A[k - new.length]? := by
+  have hl : (A.take ix).length = ix := by simp [List.length_take]; omega
+  rw [List.append_assoc, List.getElem?_append, hl]
+  by_cases h1 : k < ix
+  · rw [if_pos h1, if_pos h1, List.getElem?_take, if_pos h1]
+  · rw [if_neg h1, if_neg h1, List.getElem?_append]
+    by_cases h2 : k < ix + new.length
+    · rw [if_pos (by omega), if_pos h2]
+    · rw [if_neg (by omega), if_neg h2, List.getElem?_drop]
+      congr 1; omega
+
 /-- **`place` as a list operation**: the new active prefix is the old one with the new edge(s) spliced in at `ix` -/
 theorem place_spec (m m' : Map) (first second : Hint) (isPair : Bool) (cnt ix : Nat) (hwf : WF m) (hix : ix ≤ m.len)
     (hroom : m.len + cnt ≤ MAX_HINTS) (hcnt : cnt = if isPair then 2 else 1)
@@ -156,12 +169,14 @@ theorem place_spec (m m' : Map) (first second : Hint) (isPair : Bool) (cnt ix : 
         refine ⟨a, ?_⟩
         intro k
         rw [b k]
-        have hd : ix + (m.len - 1 - ix) + cnt = m.len - 1 + cnt := by omega
         by_cases hk : ix + cnt ≤ k ∧ k < m.len + cnt
         · rw [if_pos (by omega), if_pos hk]
         · rw [if_neg (by omega), if_neg hk]
     obtain ⟨hl1, hs1⟩ := he1
     have hlt1 : ix < e1.length := by unfold MAX_HINTS at *; omega
+    have hA : (m.edges.take m.len).length = m.len := by simp [List.length_take]; unfold MAX_HINTS at *; omega
+    have hAget : ∀ k, (m.edges.take m.len)[k]? = if k < m.len then m.edges[k]? else none := by
+      intro k; rw [List.getElem?_take]
     unfold setAt at h
     rw [if_pos hlt1] at h
     simp only [] at h
@@ -171,24 +186,22 @@ theorem place_spec (m m' : Map) (first second : Hint) (isPair : Bool) (cnt ix : 
       have := Option.some.inj h; subst this
       subst hcnt
       refine ⟨rfl, by simp [hl1], ?_⟩
-      simp only []
+      simp only [Bool.false_eq_true, if_false]
       apply List.ext_getElem?
       intro k
-      simp only [List.getElem?_take, List.getElem?_append, List.length_take, List.length_cons, List.length_nil,
-        List.getElem?_drop, List.getElem?_set, hl1]
-      have hmin : min ix (min m.len m.edges.length) = ix := by omega
-      simp only [hmin]
+      rw [splice_get _ _ _ (by rw [hA]; exact hix), List.getElem?_take]
+      simp only [List.length_cons, List.length_nil]
       by_cases hk : k < m.len + 1
       · rw [if_pos hk]
         by_cases h1 : k < ix
-        · simp [h1, Nat.ne_of_gt h1, hs1 k, show ¬ (ix + 1 ≤ k ∧ k < m.len + 1) by omega, show k < m.len by omega]
-        · by_cases h2 : k = ix
-          · subst h2; simp [hlt1]
-          · have h3 : ix + 1 ≤ k := by omega
-            simp [h1, h2, Ne.symm h2, hs1 k, h3, hk, show ¬ (k < ix + 1) by omega,
-              show ix + (k - (ix + 1)) = k - 1 by omega, show k - 1 < m.len by omega]
-      · rw [if_neg hk]
-        simp [show ¬ k < ix by omega, show ¬ (k < ix + 1) by omega, show ¬ (ix + (k - (ix + 1)) < m.len) by omega]
+        · rw [if_pos h1, List.getElem?_set_ne (by omega), hs1 k, if_neg (by omega), hAget, if_pos (by omega)]
+        · rw [if_neg h1]
+          by_cases h2 : k = ix
+          · subst h2
+            rw [if_pos (by omega), List.getElem?_set_self hlt1]; simp
+          · rw [if_neg (by omega), List.getElem?_set_ne (by omega), hs1 k, if_pos (by omega), hAget,
+              if_pos (by omega)]
+      · rw [if_neg hk, if_neg (by omega), if_neg (by omega), hAget, if_neg (by omega)]
     | true =>
       simp only [if_true] at h hcnt
       have hlt2 : ix + 1 < (e1.set ix first).length := by simp only [List.length_set]; unfold MAX_HINTS at *; omega
@@ -197,29 +210,275 @@ theorem place_spec (m m' : Map) (first second : Hint) (isPair : Bool) (cnt ix : 
       have := Option.some.inj h; subst this
       subst hcnt
       refine ⟨rfl, by simp [hl1], ?_⟩
-      simp only []
+      simp only [if_true]
       apply List.ext_getElem?
       intro k
-      simp only [List.getElem?_take, List.getElem?_append, List.length_take, List.length_cons, List.length_nil,
-        List.getElem?_drop, List.getElem?_set, hl1, List.length_set]
-      have hmin : min ix (min m.len m.edges.length) = ix := by omega
-      simp only [hmin]
-      simp only [List.length_set] at hlt2
+      rw [splice_get _ _ _ (by rw [hA]; exact hix), List.getElem?_take]
+      simp only [List.length_cons, List.length_nil]
       by_cases hk : k < m.len + 2
       · rw [if_pos hk]
         by_cases h1 : k < ix
-        · simp [h1, Nat.ne_of_gt h1, show ix + 1 ≠ k by omega, hs1 k, show ¬ (ix + 2 ≤ k ∧ k < m.len + 2) by omega,
-            show k < m.len by omega]
-        · by_cases h2 : k = ix
-          · subst h2; simp [hlt1]
-          · by_cases h2b : k = ix + 1
-            · subst h2b; simp [hl1] at hlt2 ⊢; simp [hlt2]
-            · have h3 : ix + 2 ≤ k := by omega
-              simp [h1, Ne.symm h2, Ne.symm h2b, hs1 k, h3, hk, show ¬ (k < ix + (1 + 1)) by omega,
-                show ¬ (k - ix < 1 + 1) by omega,
-                show ix + (k - (ix + (1 + 1))) = k - 2 by omega, show k - 2 < m.len by omega]
-      · rw [if_neg hk]
-        simp [show ¬ k < ix by omega, show ¬ (k < ix + (1 + 1)) by omega, show ¬ (k - ix < 1 + 1) by omega,
-          show ¬ (ix + (k - (ix + (1 + 1))) < m.len) by omega]
+        · rw [if_pos h1, List.getElem?_set_ne (by omega), List.getElem?_set_ne (by omega), hs1 k, if_neg (by omega),
+            hAget, if_pos (by omega)]
+        · rw [if_neg h1]
+          by_cases h2 : k = ix
+          · subst h2
+            rw [if_pos (by omega), List.getElem?_set_ne (by omega), List.getElem?_set_self hlt1]; simp
+          · by_cases h3 : k = ix + 1
+            · subst h3
+              rw [if_pos (by omega), List.getElem?_set_self hlt2]
+              have : ix + 1 - ix = 1 := by omega
+              rw [this]; rfl
+            · rw [if_neg (by omega), List.getElem?_set_ne (by omega), List.getElem?_set_ne (by omega), hs1 k,
+                if_pos (by omega), hAget, if_pos (by omega)]
+      · rw [if_neg hk, if_neg (by omega), if_neg (by omega), hAget, if_neg (by omega)]
+
+/-! ### `insert` keeps the unit structure -/
+
+/-- the hints `build` hands to `insert` (`Hint::setup`, the em-box ghosts, the baseline ghost; `lock()` only adds
+    LOCKED): a single edge that is not flagged as a pair edge, or a pair-bottom edge with its pair-top edge -/
+def Shaped (bottom top : Hint) : Prop :=
+  if (bottom.isValid && top.isValid) = true then
+    bottom.isPair = true ∧ bottom.isPairTop = false ∧ top.isPairTop = true
+  else (if (!bottom.isValid) = true then top else bottom).isPair = false
+
+instance (bottom top : Hint) : Decidable (Shaped bottom top) := by unfold Shaped; infer_instance
+
+theorem discard_false_not_top (m : Map) (first second : Hint) (isPair : Bool) (ix : Nat)
+    (h : discard m first second isPair ix = some false) (hlt : ix < m.len) :
+    ∀ e, getAt m.edges ix = some e → e.isPairTop = false := by
+  intro e he
+  unfold discard at h
+  simp only [hlt, if_true, he] at h
+  cases ht : e.isPairTop with
+  | false => rfl
+  | true => simp [ht] at h
+
+theorem take_getElem? (l : List Hint) (n k : Nat) (hk : k < n) : (l.take n)[k]? = l[k]? := by
+  rw [List.getElem?_take, if_pos hk]
+
+/-- **`insert` keeps the unit structure** (for shaped hints) -/
+theorem insert_units (m m' : Map) (bottom top : Hint) (hwf : WF m) (hu : Units (m.edges.take m.len))
+    (hs : Shaped bottom top) (h : HintMap.insert m bottom top = some m') : Units (m'.edges.take m'.len) := by
+  unfold HintMap.insert insertWith at h
+  simp only [] at h
+  unfold Shaped at hs
+  generalize hp : (bottom.isValid && top.isValid) = isPair at h hs
+  generalize hf : (if (!bottom.isValid) = true then top else bottom) = first at h hs
+  split at h
+  · have := Option.some.inj h; subst this; exact hu
+  · generalize hcnt : (if isPair = true then 2 else 1) = cnt at h
+    split at h
+    · have := Option.some.inj h; subst this; exact hu
+    · rename_i hfit
+      have hroom : m.len + cnt ≤ MAX_HINTS := by
+        simp only [wontFit, decide_eq_true_eq] at hfit; omega
+      obtain ⟨ix, hix, _, hixle⟩ := findIx_ok m.edges m.len first.cs (by have := hwf.1; have := hwf.2; omega) m.len 0 (by omega)
+      rw [hix] at h
+      simp only [] at h
+      split at h
+      · cases h
+      · have := Option.some.inj h; subst this; exact hu
+      · rename_i hd
+        obtain ⟨e1, e2, e3⟩ := place_spec m m' first top isPair cnt ix hwf hixle hroom hcnt.symm h
+        rw [e3]
+        -- the insertion index is a unit boundary
+        have hb : ∀ e, (m.edges.take m.len)[ix]? = some e → e.isPairTop = false := by
+          intro e he
+          by_cases hlt : ix < m.len
+          · rw [take_getElem? _ _ _ hlt] at he
+            exact discard_false_not_top m first top isPair ix hd hlt e he
+          · rw [List.getElem?_take, if_neg hlt] at he; cases he
+        have hlenA : (m.edges.take m.len).length = m.len := by
+          simp [List.length_take]; have := hwf.1; have := hwf.2; omega
+        obtain ⟨u1, u2⟩ := units_split _ hu ix (by rw [hlenA]; exact hixle) hb
+        refine units_append (units_append u1 ?_) u2
+        cases isPair with
+        | true =>
+          simp only [if_true] at hs ⊢
+          exact Units.pair _ _ _ (by rw [← hf]; simp at hp; simp [hp.1]; exact hs.1) (by rw [← hf]; simp at hp; simp [hp.1]; exact hs.2.1) hs.2.2 Units.nil
+        | false =>
+          simp only [Bool.false_eq_true, if_false] at hs ⊢
+          exact Units.single _ _ hs Units.nil
+
+/-! ### `adjust` stays inside the array -/
+
+/-- what is known about a saved index: the edge above exists, and a pair edge is never at index 0 -/
+def SavedOk (edges : List Hint) (len : Nat) (saved : List Nat) : Prop :=
+  ∀ j ∈ saved, j + 1 < len ∧ (∀ e, edges[j]? = some e → e.isPair = true → 1 ≤ j)
+
+theorem adjustUnit_ok (edges : List Hint) (len : Nat) (ora : Nat → Nat → Bool) (i j : Nat) (saved : List Nat)
+    (hlen : len ≤ edges.length) (hl96 : len ≤ MAX_HINTS) (hij : i ≤ j) (hj : j < len) (hs : saved.length ≤ i) :
+    ∃ saved', adjustUnit edges len ora i j saved = some saved' ∧
+      (saved' = saved ∨ (saved' = j :: saved ∧ j + 1 < len)) := by
+  unfold adjustUnit
+  obtain ⟨vj, hvj⟩ := getAt_ok (l := edges) (i := j) (by omega)
+  rw [hvj]
+  simp only []
+  -- `up`
+  have hup : ∃ b, (if j ≥ len - 1 then some true else (getAt edges (j + 1)).map (fun _ => ora i 0)) = some b := by
+    split
+    · exact ⟨true, rfl⟩
+    · obtain ⟨v, hv⟩ := getAt_ok (l := edges) (i := j + 1) (by omega)
+      rw [hv]; exact ⟨_, rfl⟩
+  obtain ⟨up, hup⟩ := hup
+  rw [hup]
+  simp only []
+  have hdown : ∃ b, (if i = 0 then some true else (getAt edges (i - 1)).map (fun _ => ora i 1)) = some b := by
+    split
+    · exact ⟨true, rfl⟩
+    · obtain ⟨v, hv⟩ := getAt_ok (l := edges) (i := i - 1) (by omega)
+      rw [hv]; exact ⟨_, rfl⟩
+  obtain ⟨down, hdown⟩ := hdown
+  rw [hdown]
+  simp only []
+  by_cases hsv : ((if up = true then false else if down = true then ora i 2 else true) = true ∧ j < len - 1)
+  · rw [if_pos hsv]
+    obtain ⟨v, hv⟩ := getAt_ok (l := edges) (i := j + 1) (by omega)
+    rw [hv]
+    simp only []
+    by_cases hl : (!v.isLocked) = true
+    · rw [if_pos hl, if_pos (by omega)]
+      exact ⟨_, rfl, Or.inr ⟨rfl, by omega⟩⟩
+    · rw [if_neg hl]
+      exact ⟨_, rfl, Or.inl rfl⟩
+  · rw [if_neg hsv]
+    exact ⟨_, rfl, Or.inl rfl⟩
+
+theorem drop_cons_get (A : List Hint) (i : Nat) (h : Hint) (rest : List Hint) (hd : A.drop i = h :: rest) :
+    A[i]? = some h ∧ A.drop (i + 1) = rest ∧ i < A.length := by
+  have h0 : (A.drop i)[0]? = some h := by rw [hd]; rfl
+  rw [List.getElem?_drop] at h0
+  have hlt : i < A.length := by
+    by_cases hlt : i < A.length
+    · exact hlt
+    · rw [List.drop_eq_nil_of_le (by omega)] at hd; cases hd
+  have h1 : A[i]? = some h := by simpa using h0
+  have h2 : A.drop (i + 1) = (A.drop i).drop 1 := by rw [List.drop_drop]
+  exact ⟨h1, by rw [h2, hd]; rfl, hlt⟩
+
+theorem adjustPass1_ok (edges : List Hint) (len : Nat) (ora : Nat → Nat → Bool) (hlen : len ≤ edges.length)
+    (hl96 : len ≤ MAX_HINTS) :
+    ∀ (fuel i : Nat) (saved : List Nat), i ≤ len → Units ((edges.take len).drop i) → saved.length ≤ i →
+      SavedOk edges len saved →
+      ∃ saved', adjustPass1 edges len ora fuel i saved = some saved' ∧ SavedOk edges len saved' := by
+  intro fuel
+  induction fuel with
+  | zero => intro i saved _ _ _ hs; exact ⟨saved, rfl, hs⟩
+  | succ fuel ih =>
+    intro i saved hi hu hsl hs
+    unfold adjustPass1
+    by_cases hlt : i < len
+    rotate_left
+    · rw [if_neg hlt]; exact ⟨saved, rfl, hs⟩
+    rw [if_pos hlt]
+    have hAlen : (edges.take len).length = len := by simp [List.length_take]; omega
+    -- the unit starting at `i`
+    cases hdr : (edges.take len).drop i with
+    | nil =>
+      have : ((edges.take len).drop i).length = len - i := by simp [List.length_drop, hAlen]
+      rw [hdr] at this; simp at this; omega
+    | cons hd rest =>
+      obtain ⟨g1, g2, g3⟩ := drop_cons_get _ _ _ _ hdr
+      rw [take_getElem? _ _ _ hlt] at g1
+      have hget : getAt edges i = some hd := g1
+      rw [hget]
+      simp only []
+      rw [hdr] at hu
+      rcases units_head hu with ⟨hnp, hur⟩ | ⟨hp, t, rest', hrest, htop, hur⟩
+      · -- a single edge: j = i
+        simp only [hnp, Bool.false_eq_true, if_false]
+        have hunit : ∃ saved1, (if (!hd.isLocked) = true then adjustUnit edges len ora i i saved else some saved) = some saved1 ∧
+            SavedOk edges len saved1 ∧ saved1.length ≤ i + 1 := by
+          split
+          · obtain ⟨s1, h1, h2⟩ := adjustUnit_ok edges len ora i i saved hlen hl96 (Nat.le_refl _) hlt hsl
+            refine ⟨s1, h1, ?_, ?_⟩
+            · rcases h2 with rfl | ⟨rfl, hj1⟩
+              · exact hs
+              · intro j hj
+                rcases List.mem_cons.mp hj with rfl | hj
+                · refine ⟨hj1, ?_⟩
+                  intro e he hpe
+                  have : e = hd := by
+                    have : edges[j]? = some hd := g1
+                    rw [this] at he; exact (Option.some.inj he).symm
+                  rw [this, hnp] at hpe; cases hpe
+                · exact hs j hj
+            · rcases h2 with rfl | ⟨rfl, _⟩
+              · omega
+              · simp; omega
+          · exact ⟨saved, rfl, hs, by omega⟩
+        obtain ⟨saved1, h1, hs1, hl1⟩ := hunit
+        rw [h1]
+        simp only []
+        have hprev : ∃ u, (if i > 0 then (getAt edges (i - 1)).map (fun _ => ()) else some ()) = some u := by
+          split
+          · obtain ⟨v, hv⟩ := getAt_ok (l := edges) (i := i - 1) (by omega)
+            rw [hv]; exact ⟨_, rfl⟩
+          · exact ⟨_, rfl⟩
+        obtain ⟨u, hprev⟩ := hprev
+        rw [hprev]
+        simp only []
+        exact ih (i + 1) saved1 (by omega) (by rw [g2]; exact hur) hl1 hs1
+      · -- a pair: j = i + 1, and the top edge exists
+        subst hrest
+        simp only [hp, if_true]
+        have g2' : (edges.take len).drop (i + 1) = t :: rest' := g2
+        obtain ⟨k1, k2, k3⟩ := drop_cons_get _ _ _ _ g2'
+        rw [hAlen] at k3
+        rw [take_getElem? _ _ _ k3] at k1
+        have hunit : ∃ saved1, (if (!hd.isLocked) = true then adjustUnit edges len ora i (i + 1) saved else some saved) = some saved1 ∧
+            SavedOk edges len saved1 ∧ saved1.length ≤ i + 2 := by
+          split
+          · obtain ⟨s1, h1, h2⟩ := adjustUnit_ok edges len ora i (i + 1) saved hlen hl96 (by omega) k3 hsl
+            refine ⟨s1, h1, ?_, ?_⟩
+            · rcases h2 with rfl | ⟨rfl, hj1⟩
+              · exact hs
+              · intro j hj
+                rcases List.mem_cons.mp hj with rfl | hj
+                · exact ⟨hj1, fun _ _ _ => by omega⟩
+                · exact hs j hj
+            · rcases h2 with rfl | ⟨rfl, _⟩
+              · omega
+              · simp; omega
+          · exact ⟨saved, rfl, hs, by omega⟩
+        obtain ⟨saved1, h1, hs1, hl1⟩ := hunit
+        rw [h1]
+        simp only []
+        have hprev : ∃ u, (if i > 0 then (getAt edges (i - 1)).map (fun _ => ()) else some ()) = some u := by
+          split
+          · obtain ⟨v, hv⟩ := getAt_ok (l := edges) (i := i - 1) (by omega)
+            rw [hv]; exact ⟨_, rfl⟩
+          · exact ⟨_, rfl⟩
+        obtain ⟨u, hprev⟩ := hprev
+        rw [hprev]
+        simp only []
+        have hgj : getAt edges (i + 1) = some t := k1
+        rw [hgj]
+        simp only []
+        exact ih (i + 2) saved1 (by omega) (by rw [k2]; exact hur) hl1 hs1
+
+theorem adjustPass2_ok (edges : List Hint) (len : Nat) (hlen : len ≤ edges.length) :
+    ∀ (saved : List Nat), SavedOk edges len saved → adjustPass2 edges saved = some () := by
+  intro saved
+  induction saved with
+  | nil => intro _; rfl
+  | cons j rest ih =>
+    intro hs
+    have hj := hs j (by simp)
+    have hrest : SavedOk edges len rest := fun k hk => hs k (by simp [hk])
+    unfold adjustPass2
+    obtain ⟨v1, hv1⟩ := getAt_ok (l := edges) (i := j + 1) (by omega)
+    obtain ⟨v0, hv0⟩ := getAt_ok (l := edges) (i := j) (by omega)
+    rw [hv1, hv0]
+    simp only []
+    split
+    · rename_i hp
+      have := hj.2 v0 hv0 hp
+      rw [if_neg (by omega)]
+      obtain ⟨v2, hv2⟩ := getAt_ok (l := edges) (i := j - 1) (by omega)
+      rw [hv2]
+      exact ih hrest
+    · exact ih hrest
 
 end FontVerif.HintMap
